@@ -733,3 +733,70 @@ def loop_has_early_exit(fn, loop):
         if k in ('ReturnStmt', 'BreakStmt', 'GotoStmt', 'CXXThrowExpr'):
             return True
     return False
+
+
+def must_precede(fn, targets, is_required):
+    """Every path from the entry to each target node passes an element accepted by is_required
+    (node id) before it.  Returns [(target, witness path)] for targets reachable without."""
+    cfg = Cfg.of(fn)
+    req_pos = {}
+    for bid, b in cfg.blocks.items():
+        for idx, e in enumerate(b['e']):
+            if isinstance(e, int) and is_required(e):
+                req_pos.setdefault(bid, idx)      # first required element of the block
+    fails = []
+    for t in targets:
+        loc = cfg.locate(t)
+        if loc is None:
+            raise AnalysisBroken('target node %d of %s not in CFG' % (t, fn.q))
+        tb, ti = loc
+        if tb in req_pos and req_pos[tb] < ti:
+            continue
+        # search avoiding blocks that contain a required element (entering one = passing it),
+        # except that the target's own block may be entered (its required element, if any, is after)
+        prev = {cfg.entry: None}
+        dq = deque([cfg.entry])
+        hit = cfg.entry == tb
+        while dq and not hit:
+            b = dq.popleft()
+            if b in req_pos and b != tb:
+                continue
+            for s_, label, _f in cfg.out_edges(b):
+                if s_ not in prev:
+                    prev[s_] = (b, label)
+                    if s_ == tb:
+                        hit = True
+                        break
+                    dq.append(s_)
+        if hit:
+            path = []
+            x = tb
+            while prev.get(x) is not None:
+                pb, label = prev[x]
+                d = cfg.describe_edge(pb, label) if label else None
+                if d:
+                    path.append(d)
+                x = pb
+            fails.append((t, list(reversed(path))))
+    return fails
+
+
+def reaches(fn, src_node, dst_node):
+    """Some CFG path leads from src_node to dst_node."""
+    cfg = Cfg.of(fn)
+    a, b = cfg.locate(src_node), cfg.locate(dst_node)
+    if a is None or b is None:
+        raise AnalysisBroken('node not in CFG of %s' % fn.q)
+    if a[0] == b[0] and a[1] < b[1]:
+        return True
+    seen = set()
+    dq = deque(s for s, _l, _f in cfg.out_edges(a[0]))
+    while dq:
+        x = dq.popleft()
+        if x in seen:
+            continue
+        seen.add(x)
+        if x == b[0]:
+            return True
+        dq.extend(s for s, _l, _f in cfg.out_edges(x))
+    return False
